@@ -12,12 +12,15 @@ pub fn enum_try_as_inner(ast: &DeriveInput) -> syn::Result<TokenStream> {
     let enum_name = &ast.ident;
     let (impl_generics, ty_generics, where_clause) = ast.generics.split_for_impl();
 
-    let variants: Vec<_> = variants
-        .iter()
+    let mut enabled_variants = Vec::new();
+    for variant in variants {
+        if variant.get_variant_properties()?.disabled.is_none() {
+            enabled_variants.push(variant);
+        }
+    }
+    let variants: Vec<_> = enabled_variants
+        .into_iter()
         .filter_map(|variant| {
-            if variant.get_variant_properties().ok()?.disabled.is_some() {
-                return None;
-            }
 
             match &variant.fields {
                 syn::Fields::Unnamed(values) => {
